@@ -296,7 +296,7 @@ PROPS = {
         lean_modules=["Liftbridge.Props.C11", "Liftbridge.Props.GoCursors", "Liftbridge.Props.C11Keys"],
         gen_sources=["server/cursors.go", "server/stream.go", "server/partition.go:partition.becomeLeader", "server/partition.go:partition.getStopOffset",
                      "server/partition.go:partition.Subscribe", "server/partition.go:partition.newSubscribeLoop", "server/commitlog/compact_cleaner.go"] + LOG_SOURCES,
-        runs=[dict(go_pkg="./server", test="TestVerifC11"), dict(go_pkg="./server", test="TestVerifC11FailedSet"), dict(go_pkg="./server", test="TestVerifC11ConcurrentSets"), dict(go_pkg="./server", test="TestVerifC11Keys"), dict(go_pkg="./server", test="TestVerifC11LeaderBack")],
+        runs=[dict(go_pkg="./server", test="TestVerifC11"), dict(go_pkg="./server", test="TestVerifC11FailedSet"), dict(go_pkg="./server", test="TestVerifC11ConcurrentSets"), dict(go_pkg="./server", test="TestVerifC11Keys"), dict(go_pkg="./server", test="TestVerifC11LeaderBack"), dict(go_pkg="./server", test="TestVerifC11Impatient")],
         level="proof",
         assumptions=LOG_ASSUME + [
             "SetCursor is one atomic step: it holds c.mu across publish + cache.Add (regenerated shape), and an AckPolicy-ALL publish on the replication-factor-1 cursors partition is committed (HW = its offset) before the ack; replicated cursors partitions (HW behind the newest offset between commits, follower logs after a leader change) are not modelled",
